@@ -133,18 +133,24 @@ def run(prog, ctx):
     ar = prog.func(RC + ".apply_remove")
     ctx.touch(ar)
     tm = Terms(ar.node, max_depth=0)
-    pops = [c for c in R.calls_in(ar.node, method="pop") if R.self_attr(c.func.value, "self") == "refinementObjects"]
-    ctx.floor("C05.D2", len(pops), 1, "pops from refinementObjects in apply_remove")
+    # removal sites: `self.refinementObjects.pop(pos)` or `del self.refinementObjects[pos]`
+    pops = [(c, c.args[0] if c.args else None) for c in R.calls_in(ar.node, method="pop") if R.self_attr(c.func.value, "self") == "refinementObjects"]
+    for st_ in walk_local(ar.node):
+        if isinstance(st_, ast.Delete):
+            for tg_ in st_.targets:
+                if isinstance(tg_, ast.Subscript) and R.self_attr(tg_.value, "self") == "refinementObjects":
+                    pops.append((st_, tg_.slice))
+    ctx.floor("C05.D2", len(pops), 1, "removals from refinementObjects in apply_remove")
     car = cfg_of(ar)
-    for k, pc in enumerate(pops):
+    for k, (pc, pos_ast) in enumerate(pops):
         loops = R.enclosing_loops(pc)
-        pos = tm.term(pc.args[0]) if pc.args else None
+        pos = tm.term(pos_ast) if pos_ast is not None else None
         popn = R.cfg_node(ar, pc)
         subs = {}
         for s in R.self_stores(ar):
             if s.kind == "aug" and isinstance(s.stmt.op, ast.Sub) and s.attr in ("value", "evaluationstotal"):
-                t = tm.term(s.value)
                 sn = R.cfg_node(ar, s.stmt)
+                t = R.resolve_locals(ar, tm.term(s.value), sn, tm)          # looks through `obj = self.refinementObjects[position]`
                 same_loop = loops and R.enclosing_loops(s.stmt) and R.enclosing_loops(s.stmt)[-1] is loops[-1]
                 want_attr = {"value": "value", "evaluationstotal": "evaluations"}[s.attr]
                 good = t == ("a", ("s", ("a", ("n", "self"), "refinementObjects"), pos), want_attr)
